@@ -424,6 +424,56 @@ fn main() {
                 2
             }
         },
+        Some("attach") => {
+            // verif-pbt attach <Cxx> <key> <json-file> [add-evaluations]: merge the result of an extra
+            // thorough-tier pass (debug-assertion pass, fuzz campaign, TSan pass) into the evidence file
+            let prop = args.get(2).cloned().unwrap_or_default();
+            let key = args.get(3).cloned().unwrap_or_default();
+            let file = args.get(4).cloned().unwrap_or_default();
+            let evpath = root().join("evidence").join(format!("{}.json", prop));
+            let run = || -> Result<(), String> {
+                let mut ev: Value = serde_json::from_str(&std::fs::read_to_string(&evpath).map_err(|e| e.to_string())?).map_err(|e| e.to_string())?;
+                let extra: Value = serde_json::from_str(&std::fs::read_to_string(&file).map_err(|e| e.to_string())?).map_err(|e| e.to_string())?;
+                let add = extra.get("evaluations").and_then(|v| v.as_u64()).unwrap_or(0);
+                let addd = extra.get("distinct_nontrivial").and_then(|v| v.as_u64()).unwrap_or(0);
+                let cov = ev.get_mut("coverage").and_then(|c| c.as_object_mut()).ok_or("evidence has no coverage")?;
+                let e0 = cov.get("evaluations").and_then(|v| v.as_u64()).unwrap_or(0);
+                let d0 = cov.get("distinct_nontrivial").and_then(|v| v.as_u64()).unwrap_or(0);
+                cov.insert("evaluations".into(), json!(e0 + add));
+                cov.insert("distinct_nontrivial".into(), json!(d0 + addd));
+                cov.insert(key.clone(), extra);
+                std::fs::write(&evpath, serde_json::to_string_pretty(&ev).unwrap()).map_err(|e| e.to_string())
+            };
+            match run() {
+                Ok(()) => 0,
+                Err(e) => {
+                    println!("INCONCLUSIVE cannot attach {} to evidence of {}: {}", key, prop, e);
+                    2
+                }
+            }
+        }
+        Some("fuzz-artifact") => {
+            // verif-pbt fuzz-artifact <Cxx> <target> <file>: re-run a libFuzzer artifact through the plain
+            // (non-instrumented) binary; on failure write a JSON replay file and print the VIOLATION line
+            let prop = args.get(2).cloned().unwrap_or_default();
+            let target = args.get(3).cloned().unwrap_or_default();
+            let file = args.get(4).cloned().unwrap_or_default();
+            let data = std::fs::read(&file).unwrap_or_default();
+            match fuzz_entry::run(&target, &data) {
+                Ok(()) => {
+                    println!("fuzz artifact {} does not reproduce through the plain binary (not counted)", file);
+                    0
+                }
+                Err(msg) => {
+                    let hexs: String = data.iter().map(|b| format!("{:02x}", b)).collect();
+                    let f = engine::Failure { sub: format!("corpus-{}", target), message: msg.clone(), case: json!({"target": target, "file": file, "hex": hexs}), shard: 0 };
+                    let p = write_replay(&prop, &f, env_u64("VERIF_SEED", 0));
+                    println!("fuzz:{}: {}", target, msg);
+                    println!("VIOLATION property={} replay={}", prop, p.display());
+                    1
+                }
+            }
+        }
         Some("gen-corpus") => {
             gen_corpus();
             0
